@@ -3,7 +3,7 @@
   equal the formulas the encoder cites offsets with, every out-of-band group sits at its cited
   offset, the directory serves the core stream of each type (extras of the same type are overridden).
 -/
-import MdProofs.Lemmas.EncodeNames
+import MdProofs.Lemmas.EncodeCrashpad
 import MdProofs.Lemmas.BytesStreams
 namespace MdModel.Encode
 open MdModel MdModel.Dump MdModel.Gen.Layouts MdModel.Gen.LayoutsC02
@@ -12,18 +12,6 @@ open MdModel MdModel.Dump MdModel.Gen.Layouts MdModel.Gen.LayoutsC02
 
 theorem listHeader_length (e : Endian) (pad : Bool) (n : Nat) : (listHeader e pad n).length = listHeaderSize pad := by
   cases pad <;> simp [listHeader, listHeaderSize]
-
-theorem moduleRecs_length (off : Nat) (ms : List MModule) : (moduleRecs off ms).length = ms.length := by
-  induction ms generalizing off with
-  | nil => rfl
-  | cons m ms ih => simp [moduleRecs, ih]
-
-theorem encCv_length (e : Endian) (cv : MCv) : (encCv e cv).length = cvSize cv := by
-  cases cv <;> simp [encCv, cvSize] <;> omega
-
-theorem oobModule_length (e : Endian) (m : MModule) : (oobModule e m).length = oobModuleSize m := by
-  unfold oobModule oobModuleSize
-  cases m.cv <;> simp [encString_length, encCv_length]
 
 theorem oobModules_length (e : Endian) (ms : List MModule) : (oobModules e ms).length = oobModulesSize ms := by
   induction ms with
@@ -45,34 +33,77 @@ theorem encodeStreams_length (e : Endian) (flags : Nat) (ss : List (Nat × List 
     (encodeStreams e flags ss).length = 32 + 12 * ss.length + sumSizes (ss.map fun x => (x.1, x.2.length)) := by
   simp [encodeStreams, streamsBytes_length]; omega
 
+theorem optList_map {α β γ : Type} (o : Option α) (g : α → β) (h : β → γ) :
+    (optList o g).map h = optList o (fun a => h (g a)) := by
+  cases o <;> rfl
+
+theorem mem_optList {α β : Type} {o : Option α} {g : α → β} {b : β} :
+    b ∈ optList o g ↔ ∃ a, o = some a ∧ g a = b := by
+  cases o <;> simp [optList, eq_comm]
+
+theorem optList_sublist_const {α β : Type} (o : Option α) (t : β) : List.Sublist (optList o (fun _ => t)) [t] := by
+  cases o <;> simp [optList]
+
+theorem encThreadList_length (e : Endian) (pad : Bool) (off : Nat) (ts : List MThread) :
+    (encThreadList e pad off ts).length = listHeaderSize pad + 48 * ts.length := by
+  have h48 : Layout.size MINIDUMP_THREAD = 48 := by decide
+  simp [encThreadList, listHeader_length, threadRecs_length, h48]; omega
+
+theorem encModuleList_length (e : Endian) (pad : Bool) (off : Nat) (ms : List MModule) :
+    (encModuleList e pad off ms).length = listHeaderSize pad + 108 * ms.length := by
+  have h108 : Layout.size MINIDUMP_MODULE = 108 := by decide
+  simp [encModuleList, listHeader_length, moduleRecs_length, h108]; omega
+
+theorem encMemoryList_length (e : Endian) (pad : Bool) (off : Nat) (rs : List MRegion) :
+    (encMemoryList e pad off rs).length = listHeaderSize pad + 16 * rs.length := by
+  have h16 : Layout.size MINIDUMP_MEMORY_DESCRIPTOR = 16 := by decide
+  simp [encMemoryList, listHeader_length, memRecs_length, h16]; omega
+
+theorem encMemory64List_length (e : Endian) (off : Nat) (rs : List MRegion) :
+    (encMemory64List e off rs).length = 16 + 16 * rs.length := by
+  have h16' : Layout.size MINIDUMP_MEMORY_DESCRIPTOR64 = 16 := by decide
+  simp [encMemory64List, mem64Recs, h16']; omega
+
+theorem encMemInfoList_length (e : Endian) (is : List MMemInfo) : (encMemInfoList e is).length = 12 + 48 * is.length := by
+  have h48' : Layout.size MINIDUMP_MEMORY_INFO = 48 := by decide
+  simp [encMemInfoList, exListHeader, h48']; omega
+
+theorem encThreadNames_length (e : Endian) (pad : Bool) (off : Nat) (ns : List (Nat × List Nat)) :
+    (encThreadNames e pad off ns).length = listHeaderSize pad + 12 * ns.length := by
+  have h12 : Layout.size MINIDUMP_THREAD_NAME = 12 := by decide
+  simp [encThreadNames, listHeader_length, nameRecs_length, h12]; omega
+
+theorem encUnloadedList_length (e : Endian) (off : Nat) (us : List MUnloaded) :
+    (encUnloadedList e off us).length = 12 + 24 * us.length := by
+  have h24 : Layout.size MINIDUMP_UNLOADED_MODULE = 24 := by decide
+  simp [encUnloadedList, exListHeader, unloadedRecs_length, h24]; omega
+
+theorem encException_length (e : Endian) (off : Nat) (x : MException) : (encException e off x).length = 168 := by
+  have h168 : Layout.size MINIDUMP_EXCEPTION_STREAM = 168 := by decide
+  simp [encException, h168]
+
+theorem encSysInfo_length (e : Endian) (off : Nat) (x : MSysInfo) : (encSysInfo e off x).length = 56 := by
+  have h56 : Layout.size SYSTEM_INFO_LAYOUT = 56 := by decide
+  simp [encSysInfo, h56]
+
+theorem encMiscInfo_length (e : Endian) (x : MMiscInfo) : (encMiscInfo e x).length = miscInfoSize x := by
+  simp [encMiscInfo, miscInfoSize]
+
+theorem encCrashpad_length (e : Endian) (off : Nat) (x : MCrashpad) : (encCrashpad e off x).length = 52 := by
+  simp only [encCrashpad, encFields_length]; decide
+
+theorem encHandleData_length (e : Endian) (off : Nat) (x : MHandleData) : (encHandleData e off x).length = handleDataSize x := by
+  simp [encHandleData, handleDataSize, handleRecs_length, handleLayout_size,
+    show Layout.size MINIDUMP_HANDLE_DATA_STREAM = 16 by decide, Nat.mul_comm]
+
 /-- the sizes the encoder computes offsets with are the sizes of the streams it writes -/
 theorem coreStreams_sizes (m : DumpModel) (e : Endian) (f : MemForm) :
     (coreStreams m e f).map (fun x => (x.1, x.2.length)) = coreStreamSizes m f := by
-  have h48 : Layout.size MINIDUMP_THREAD = 48 := by decide
-  have h108 : Layout.size MINIDUMP_MODULE = 108 := by decide
-  have h16 : Layout.size MINIDUMP_MEMORY_DESCRIPTOR = 16 := by decide
-  have h16' : Layout.size MINIDUMP_MEMORY_DESCRIPTOR64 = 16 := by decide
-  have h48' : Layout.size MINIDUMP_MEMORY_INFO = 48 := by decide
-  have h12 : Layout.size MINIDUMP_THREAD_NAME = 12 := by decide
-  have h24 : Layout.size MINIDUMP_UNLOADED_MODULE = 24 := by decide
-  have h168 : Layout.size MINIDUMP_EXCEPTION_STREAM = 168 := by decide
-  have h56 : Layout.size SYSTEM_INFO_LAYOUT = 56 := by decide
   unfold coreStreams coreStreamSizes
-  simp only [List.map_append, List.map_cons, List.map_nil]
-  congr 1
-  · congr 1
-    · simp only [List.cons.injEq, Prod.mk.injEq, true_and, and_true]
-      refine ⟨?_, ?_, ?_, ?_, ?_, ?_⟩
-      · simp [encThreadList, listHeader_length, threadRecs_length, h48]; omega
-      · simp [encModuleList, listHeader_length, moduleRecs_length, h108]; omega
-      · cases f
-        · simp [encMemoryList, listHeader_length, memRecs_length, h16]; omega
-        · simp [encMemory64List, mem64Recs, h16']; omega
-      · simp [encMemInfoList, exListHeader, h48']; omega
-      · simp [encThreadNames, listHeader_length, nameRecs_length, h12]; omega
-      · simp [encUnloadedList, exListHeader, unloadedRecs_length, h24]; omega
-    · cases m.exception <;> simp [encException, h168]
-  · cases m.sysInfo <;> simp [encSysInfo, h56]
+  simp only [List.map_append, List.map_cons, List.map_nil, optList_map, encThreadList_length, encModuleList_length,
+    encMemInfoList_length, encThreadNames_length, encUnloadedList_length, encException_length, encSysInfo_length,
+    encMiscInfo_length, encHandleData_length, encCrashpad_length]
+  cases f <;> simp only [encMemoryList_length, encMemory64List_length]
 
 theorem allStreams_sizes (m : DumpModel) (e : Endian) (f : MemForm) :
     (allStreams m e f).map (fun x => (x.1, x.2.length)) = streamSizes m f := by
@@ -89,7 +120,7 @@ theorem encodeStreams_all_length (m : DumpModel) (e : Endian) (f : MemForm) :
 /-! ## the out-of-band groups sit where the streams cite them -/
 
 theorem encodeList_eq (m : DumpModel) (e : Endian) (f : MemForm) :
-    (encode m e f).toList = encodeStreams e m.flags (allStreams m e f) ++ oobAll m e := by
+    (encode m e f).toList = encodeStreams e m.flags (allStreams m e f) ++ oobAll m e f := by
   simp [encode, encodeList]
 
 structure OobPlaced (b : Bytes) (m : DumpModel) (e : Endian) (f : MemForm) : Prop where
@@ -100,6 +131,8 @@ structure OobPlaced (b : Bytes) (m : DumpModel) (e : Endian) (f : MemForm) : Pro
   unloaded : Has b.toList (oobOffsets m f).unloaded (oobNames e (m.unloaded.map (·.name)))
   exc : Has b.toList (oobOffsets m f).exc (excCtx m)
   csd : Has b.toList (oobOffsets m f).csd (csdString e m)
+  handles : Has b.toList (oobOffsets m f).handles (handlesOob e (oobOffsets m f).handles m)
+  crashpad : Has b.toList (oobOffsets m f).crashpad (crashpadOob e (oobOffsets m f).crashpad m)
   size : b.size = (oobOffsets m f).stop
 
 theorem Has.at {l : List UInt8} {o o' : Nat} {c : List UInt8} (h : Has l o c) (ho : o = o') : Has l o' c := ho ▸ h
@@ -107,28 +140,39 @@ theorem Has.at {l : List UInt8} {o o' : Nat} {c : List UInt8} (h : Has l o c) (h
 theorem csdString_length (e : Endian) (m : DumpModel) : (csdString e m).length = csdSize m := by
   unfold csdString csdSize; cases m.sysInfo <;> simp [encString_length]
 
+theorem handlesOob_length (e : Endian) (off : Nat) (m : DumpModel) : (handlesOob e off m).length = handlesOobSize m := by
+  unfold handlesOob handlesOobSize; cases m.handles <;> simp [oobHandles_length]
+
+theorem crashpadOob_length (e : Endian) (off : Nat) (m : DumpModel) : (crashpadOob e off m).length = crashpadOobSize m := by
+  unfold crashpadOob crashpadOobSize; cases m.crashpad <;> simp [crashpadOobOf_length]
+
 /-- **offset bookkeeping for the out-of-band data** -/
 theorem oob_placed (m : DumpModel) (e : Endian) (f : MemForm) : OobPlaced (encode m e f) m e f := by
-  have h0 : Has (encode m e f).toList (oobStart m f) (oobAll m e) :=
+  have h0 : Has (encode m e f).toList (oobStart m f) (oobAll m e f) :=
     ⟨encodeStreams e m.flags (allStreams m e f), [], by simp [encodeList_eq], encodeStreams_all_length m e f⟩
-  unfold oobAll at h0
-  have hG := h0.right
-  have hF := h0.left.right
-  have hE := h0.left.left.right
-  have hD := h0.left.left.left.right
-  have hC := h0.left.left.left.left.right
-  have hB := h0.left.left.left.left.left.right
-  have hA := h0.left.left.left.left.left.left
-  simp only [List.length_append, oobThreads_length, oobModules_length, oobMemory_length, oobNames_length] at hB hC hD hE hF hG
-  refine ⟨hA, hB, hC.at ?_, hD.at ?_, hE.at ?_, hF.at ?_, hG.at ?_, ?_⟩
+  unfold oobAll oobAllAt at h0
+  have hI := h0.right
+  have hH := h0.left.right
+  have hG := h0.left.left.right
+  have hF := h0.left.left.left.right
+  have hE := h0.left.left.left.left.right
+  have hD := h0.left.left.left.left.left.right
+  have hC := h0.left.left.left.left.left.left.right
+  have hB := h0.left.left.left.left.left.left.left.right
+  have hA := h0.left.left.left.left.left.left.left.left
+  simp only [List.length_append, oobThreads_length, oobModules_length, oobMemory_length, oobNames_length,
+    csdString_length, handlesOob_length] at hB hC hD hE hF hG hH hI
+  refine ⟨hA, hB, hC.at ?_, hD.at ?_, hE.at ?_, hF.at ?_, hG.at ?_, hH.at ?_, hI.at ?_, ?_⟩
+  · simp only [oobOffsets]; omega
+  · simp only [oobOffsets]; omega
   · simp only [oobOffsets]; omega
   · simp only [oobOffsets]; omega
   · simp only [oobOffsets]; omega
   · simp only [oobOffsets]; omega
   · simp only [oobOffsets]; omega
   · have := congrArg List.length (encodeList_eq m e f)
-    simp only [Array.length_toList, List.length_append, encodeStreams_all_length, oobAll, oobThreads_length,
-      oobModules_length, oobMemory_length, oobNames_length, csdString_length] at this
+    simp only [Array.length_toList, List.length_append, encodeStreams_all_length, oobAll, oobAllAt, oobThreads_length,
+      oobModules_length, oobMemory_length, oobNames_length, csdString_length, handlesOob_length, crashpadOob_length] at this
     rw [this]
     simp only [oobOffsets]
     omega
@@ -177,17 +221,51 @@ structure WellFormed (m : DumpModel) (f : MemForm) : Prop where
   memInfo : ∀ i ∈ m.memInfo, MemInfoFits i
   names : ∀ n ∈ m.threadNames, n.1 < 2 ^ 32 ∧ ValidName n.2
   unloaded : ∀ u ∈ m.unloaded, UnloadedFits u
+  modules : ∀ x ∈ m.modules, ModuleFits x
+  exception : ∀ x, m.exception = some x → ExcFits x
+  sysInfo : ∀ x, m.sysInfo = some x → SysInfoFits x
+  miscInfo : ∀ x, m.miscInfo = some x → MiscFits x
+  handles : ∀ x, m.handles = some x → ∀ h ∈ x.handles, HandleFits h
+  linuxMaps : ∀ x, m.linuxMaps = some x → ∀ en ∈ x, MapEntryFits en
+  crashpad : ∀ x, m.crashpad = some x → CrashpadFits x
   extra : ∀ x ∈ m.extra, x.1 ∈ coreTypes m f
 
+/-- the types of the six streams always present -/
+def fixedTypes (f : MemForm) : List Nat :=
+  [ST_THREAD_LIST, ST_MODULE_LIST, (match f with | .mem => ST_MEMORY_LIST | .mem64 => ST_MEMORY64_LIST),
+   ST_MEMORY_INFO_LIST, ST_THREAD_NAMES, ST_UNLOADED_MODULE_LIST]
+
+/-- every type the encoder can emit, in its order -/
+def allTypes (f : MemForm) : List Nat :=
+  fixedTypes f ++ [ST_EXCEPTION] ++ [ST_SYSTEM_INFO] ++ [ST_MISC_INFO] ++ [ST_HANDLE_DATA_STREAM] ++ [ST_LINUX_MAPS] ++
+    [ST_CRASHPAD]
+
+theorem coreTypes_eq (m : DumpModel) (f : MemForm) :
+    coreTypes m f = fixedTypes f ++ optList m.exception (fun _ => ST_EXCEPTION) ++
+      optList m.sysInfo (fun _ => ST_SYSTEM_INFO) ++ optList m.miscInfo (fun _ => ST_MISC_INFO) ++
+      optList m.handles (fun _ => ST_HANDLE_DATA_STREAM) ++ optList m.linuxMaps (fun _ => ST_LINUX_MAPS) ++
+      optList m.crashpad (fun _ => ST_CRASHPAD) := by
+  unfold coreTypes coreStreamSizes fixedTypes
+  simp only [List.map_append, List.map_cons, List.map_nil, optList_map]
+  cases f <;> rfl
+
+theorem coreTypes_sublist (m : DumpModel) (f : MemForm) : List.Sublist (coreTypes m f) (allTypes f) := by
+  rw [coreTypes_eq]
+  unfold allTypes
+  exact ((((((List.Sublist.refl _).append (optList_sublist_const _ _)).append (optList_sublist_const _ _)).append
+    (optList_sublist_const _ _)).append (optList_sublist_const _ _)).append (optList_sublist_const _ _)).append
+    (optList_sublist_const _ _)
+
+theorem allTypes_nodup (f : MemForm) : (allTypes f).Nodup := by cases f <;> decide
+
+theorem coreTypes_nodup (m : DumpModel) (f : MemForm) : (coreTypes m f).Nodup :=
+  (allTypes_nodup f).sublist (coreTypes_sublist m f)
+
 theorem coreTypes_lt (m : DumpModel) (f : MemForm) : ∀ t ∈ coreTypes m f, t < 2 ^ 32 := by
-  have hall : (coreTypes m f).all (fun t => decide (t < 2 ^ 32)) = true := by
-    unfold coreTypes coreStreamSizes
-    cases f <;> cases m.exception <;> cases m.sysInfo <;>
-      simp [ST_THREAD_LIST, ST_MODULE_LIST, ST_MEMORY_LIST, ST_MEMORY64_LIST, ST_MEMORY_INFO_LIST, ST_THREAD_NAMES,
-        ST_UNLOADED_MODULE_LIST, ST_EXCEPTION, ST_SYSTEM_INFO, ST_SystemInfoStream]
   intro t ht
-  have := List.all_eq_true.mp hall t ht
-  simpa using this
+  have h := (coreTypes_sublist m f).subset ht
+  have hall : ∀ t ∈ allTypes f, t < 2 ^ 32 := by cases f <;> decide
+  exact hall t h
 
 theorem oobStart_le_stop (m : DumpModel) (f : MemForm) : oobStart m f ≤ (oobOffsets m f).stop := by
   simp only [oobOffsets]; omega
@@ -200,7 +278,7 @@ theorem readDump_encode {m : DumpModel} {f : MemForm} (wf : WellFormed m f) (e :
   have hstop := oobStart_le_stop m f
   have hsz := wf.size
   have hsb := streamsBytes_length (allStreams m e f)
-  apply readDump_enc e m.flags (allStreams m e f) (oobAll m e) (encodeList_eq m e f) (by omega) wf.flags
+  apply readDump_enc e m.flags (allStreams m e f) (oobAll m e f) (encodeList_eq m e f) (by omega) wf.flags
   apply dirFits_of_bound
   · intro x hx
     simp only [allStreams, List.mem_append] at hx
@@ -218,7 +296,7 @@ theorem getRawStream_encode {m : DumpModel} {f : MemForm} (wf : WellFormed m f) 
     (hd : d.streams = dirMap (allStreams m e f)) :
     getRawStream d (encode m e f) ty = .ok bs.toArray := by
   have hsz : (encode m e f).size < 2 ^ 32 := by rw [(oob_placed m e f).size]; exact wf.size
-  rw [getRawStream_enc e m.flags (allStreams m e f) (oobAll m e) (encodeList_eq m e f) hsz ty d hd]
+  rw [getRawStream_enc e m.flags (allStreams m e f) (oobAll m e f) (encodeList_eq m e f) hsz ty d hd]
   simp only [allStreams, lastOf_append, hcore]
 
 /-- a type the encoder does not emit is not in the directory at all -/
@@ -226,7 +304,7 @@ theorem getRawStream_encode_none {m : DumpModel} {f : MemForm} (wf : WellFormed 
     (hcore : ty ∉ coreTypes m f) (d : Dump) (hd : d.streams = dirMap (allStreams m e f)) :
     getRawStream d (encode m e f) ty = .error .StreamNotFound := by
   have hsz : (encode m e f).size < 2 ^ 32 := by rw [(oob_placed m e f).size]; exact wf.size
-  rw [getRawStream_enc e m.flags (allStreams m e f) (oobAll m e) (encodeList_eq m e f) hsz ty d hd]
+  rw [getRawStream_enc e m.flags (allStreams m e f) (oobAll m e f) (encodeList_eq m e f) hsz ty d hd]
   have h1 : lastOf ty (coreStreams m e f) = none := by
     apply lastOf_none_of_forall
     intro x hx heq
@@ -249,61 +327,175 @@ theorem streamRes_notFound {α : Type} {d : Dump} {b : Bytes} {ty : Nat} {reader
 
 /-! ## the core stream of each type -/
 
+theorem lastOf_of_mem_nodup {α : Type} (ty : Nat) : ∀ (ss : List (Nat × α)) (a : α), (ty, a) ∈ ss →
+    (ss.map (·.1)).Nodup → lastOf ty ss = some a := by
+  intro ss
+  induction ss with
+  | nil => intro a h; simp at h
+  | cons p rest ih =>
+    intro a hmem hnd
+    obtain ⟨t, x⟩ := p
+    simp only [List.map_cons, List.nodup_cons] at hnd
+    simp only [lastOf]
+    simp only [List.mem_cons, Prod.mk.injEq] at hmem
+    cases hmem with
+    | inl h =>
+      obtain ⟨h1, h2⟩ := h
+      subst h1 h2
+      have : lastOf ty rest = none := by
+        apply lastOf_none_of_forall
+        intro y hy heq
+        exact hnd.1 (heq ▸ List.mem_map_of_mem hy)
+      simp [this]
+    | inr h =>
+      rw [ih a h hnd.2]
+
+/-- a stream the encoder emits is the last of its type among the core streams -/
+theorem core_of_mem (m : DumpModel) (e : Endian) (f : MemForm) {ty : Nat} {bs : List UInt8}
+    (h : (ty, bs) ∈ coreStreams m e f) : lastOf ty (coreStreams m e f) = some bs := by
+  apply lastOf_of_mem_nodup ty _ bs h
+  rw [coreStreams_types]
+  exact coreTypes_nodup m f
+
 section core
 variable (m : DumpModel) (e : Endian) (f : MemForm)
 
 theorem core_threads : lastOf ST_THREAD_LIST (coreStreams m e f) =
-    some (encThreadList e m.pad (oobOffsets m f).threads m.threads) := by
-  unfold coreStreams
-  cases f <;> cases m.exception <;> cases m.sysInfo <;>
-    simp [lastOf, ST_THREAD_LIST, ST_MODULE_LIST, ST_MEMORY_LIST, ST_MEMORY64_LIST, ST_MEMORY_INFO_LIST, ST_THREAD_NAMES,
-      ST_UNLOADED_MODULE_LIST, ST_EXCEPTION, ST_SYSTEM_INFO, ST_SystemInfoStream]
+    some (encThreadList e m.pad (oobOffsets m f).threads m.threads) :=
+  core_of_mem m e f (by simp [coreStreams])
 
-theorem core_memInfo : lastOf ST_MEMORY_INFO_LIST (coreStreams m e f) = some (encMemInfoList e m.memInfo) := by
-  unfold coreStreams
-  cases f <;> cases m.exception <;> cases m.sysInfo <;>
-    simp [lastOf, ST_THREAD_LIST, ST_MODULE_LIST, ST_MEMORY_LIST, ST_MEMORY64_LIST, ST_MEMORY_INFO_LIST, ST_THREAD_NAMES,
-      ST_UNLOADED_MODULE_LIST, ST_EXCEPTION, ST_SYSTEM_INFO, ST_SystemInfoStream]
+theorem core_modules : lastOf ST_MODULE_LIST (coreStreams m e f) =
+    some (encModuleList e m.pad (oobOffsets m f).modules m.modules) :=
+  core_of_mem m e f (by simp [coreStreams])
+
+theorem core_memInfo : lastOf ST_MEMORY_INFO_LIST (coreStreams m e f) = some (encMemInfoList e m.memInfo) :=
+  core_of_mem m e f (by simp [coreStreams])
 
 theorem core_memory : lastOf ST_MEMORY_LIST (coreStreams m e .mem) =
-    some (encMemoryList e m.pad (oobOffsets m .mem).memory m.memory) := by
-  unfold coreStreams
-  cases m.exception <;> cases m.sysInfo <;>
-    simp [lastOf, ST_THREAD_LIST, ST_MODULE_LIST, ST_MEMORY_LIST, ST_MEMORY64_LIST, ST_MEMORY_INFO_LIST, ST_THREAD_NAMES,
-      ST_UNLOADED_MODULE_LIST, ST_EXCEPTION, ST_SYSTEM_INFO, ST_SystemInfoStream]
+    some (encMemoryList e m.pad (oobOffsets m .mem).memory m.memory) :=
+  core_of_mem m e .mem (by simp [coreStreams])
 
 theorem core_memory64 : lastOf ST_MEMORY64_LIST (coreStreams m e .mem64) =
-    some (encMemory64List e (oobOffsets m .mem64).memory m.memory) := by
-  unfold coreStreams
-  cases m.exception <;> cases m.sysInfo <;>
-    simp [lastOf, ST_THREAD_LIST, ST_MODULE_LIST, ST_MEMORY_LIST, ST_MEMORY64_LIST, ST_MEMORY_INFO_LIST, ST_THREAD_NAMES,
-      ST_UNLOADED_MODULE_LIST, ST_EXCEPTION, ST_SYSTEM_INFO, ST_SystemInfoStream]
+    some (encMemory64List e (oobOffsets m .mem64).memory m.memory) :=
+  core_of_mem m e .mem64 (by simp [coreStreams])
 
 theorem core_names : lastOf ST_THREAD_NAMES (coreStreams m e f) =
-    some (encThreadNames e m.pad (oobOffsets m f).names m.threadNames) := by
-  unfold coreStreams
-  cases f <;> cases m.exception <;> cases m.sysInfo <;>
-    simp [lastOf, ST_THREAD_LIST, ST_MODULE_LIST, ST_MEMORY_LIST, ST_MEMORY64_LIST, ST_MEMORY_INFO_LIST, ST_THREAD_NAMES,
-      ST_UNLOADED_MODULE_LIST, ST_EXCEPTION, ST_SYSTEM_INFO, ST_SystemInfoStream]
+    some (encThreadNames e m.pad (oobOffsets m f).names m.threadNames) :=
+  core_of_mem m e f (by simp [coreStreams])
 
 theorem core_unloaded : lastOf ST_UNLOADED_MODULE_LIST (coreStreams m e f) =
-    some (encUnloadedList e (oobOffsets m f).unloaded m.unloaded) := by
-  unfold coreStreams
-  cases f <;> cases m.exception <;> cases m.sysInfo <;>
-    simp [lastOf, ST_THREAD_LIST, ST_MODULE_LIST, ST_MEMORY_LIST, ST_MEMORY64_LIST, ST_MEMORY_INFO_LIST, ST_THREAD_NAMES,
-      ST_UNLOADED_MODULE_LIST, ST_EXCEPTION, ST_SYSTEM_INFO, ST_SystemInfoStream]
+    some (encUnloadedList e (oobOffsets m f).unloaded m.unloaded) :=
+  core_of_mem m e f (by simp [coreStreams])
+
+theorem core_exception {x : MException} (h : m.exception = some x) : lastOf ST_EXCEPTION (coreStreams m e f) =
+    some (encException e (oobOffsets m f).exc x) :=
+  core_of_mem m e f (by simp [coreStreams, optList, h])
+
+theorem core_sysInfo {x : MSysInfo} (h : m.sysInfo = some x) : lastOf ST_SYSTEM_INFO (coreStreams m e f) =
+    some (encSysInfo e (oobOffsets m f).csd x) :=
+  core_of_mem m e f (by simp [coreStreams, optList, h])
+
+theorem core_miscInfo {x : MMiscInfo} (h : m.miscInfo = some x) : lastOf ST_MISC_INFO (coreStreams m e f) =
+    some (encMiscInfo e x) :=
+  core_of_mem m e f (by simp [coreStreams, optList, h])
+
+theorem core_handles {x : MHandleData} (h : m.handles = some x) : lastOf ST_HANDLE_DATA_STREAM (coreStreams m e f) =
+    some (encHandleData e (oobOffsets m f).handles x) :=
+  core_of_mem m e f (by simp [coreStreams, optList, h])
+
+theorem core_linuxMaps {x : List MapEntry} (h : m.linuxMaps = some x) : lastOf ST_LINUX_MAPS (coreStreams m e f) =
+    some (encLinuxMaps x) :=
+  core_of_mem m e f (by simp [coreStreams, optList, h])
+
+theorem core_crashpad {x : MCrashpad} (h : m.crashpad = some x) : lastOf ST_CRASHPAD (coreStreams m e f) =
+    some (encCrashpad e (oobOffsets m f).crashpad x) :=
+  core_of_mem m e f (by simp [coreStreams, optList, h])
+
+/-- the optional streams: (present?, type) -/
+def optTypes (m : DumpModel) : List (Bool × Nat) :=
+  [(m.exception.isSome, ST_EXCEPTION), (m.sysInfo.isSome, ST_SYSTEM_INFO), (m.miscInfo.isSome, ST_MISC_INFO),
+   (m.handles.isSome, ST_HANDLE_DATA_STREAM), (m.linuxMaps.isSome, ST_LINUX_MAPS), (m.crashpad.isSome, ST_CRASHPAD)]
+
+theorem mem_optList_const {α : Type} {o : Option α} {t x : Nat} : x ∈ optList o (fun _ => t) ↔ (o.isSome = true ∧ x = t) := by
+  cases o <;> simp [optList]
+
+theorem mem_coreTypes {t : Nat} : t ∈ coreTypes m f ↔ t ∈ fixedTypes f ∨ (true, t) ∈ optTypes m := by
+  rw [coreTypes_eq]
+  simp only [List.mem_append, mem_optList_const, optTypes, List.mem_cons, Prod.mk.injEq, List.not_mem_nil, or_false,
+    or_assoc]
+  constructor
+  · rintro (h | ⟨h1, h2⟩ | ⟨h1, h2⟩ | ⟨h1, h2⟩ | ⟨h1, h2⟩ | ⟨h1, h2⟩ | ⟨h1, h2⟩)
+    · exact .inl h
+    · exact .inr (.inl ⟨h1.symm, h2⟩)
+    · exact .inr (.inr (.inl ⟨h1.symm, h2⟩))
+    · exact .inr (.inr (.inr (.inl ⟨h1.symm, h2⟩)))
+    · exact .inr (.inr (.inr (.inr (.inl ⟨h1.symm, h2⟩))))
+    · exact .inr (.inr (.inr (.inr (.inr (.inl ⟨h1.symm, h2⟩)))))
+    · exact .inr (.inr (.inr (.inr (.inr (.inr ⟨h1.symm, h2⟩)))))
+  · rintro (h | ⟨h1, h2⟩ | ⟨h1, h2⟩ | ⟨h1, h2⟩ | ⟨h1, h2⟩ | ⟨h1, h2⟩ | ⟨h1, h2⟩)
+    · exact .inl h
+    · exact .inr (.inl ⟨h1.symm, h2⟩)
+    · exact .inr (.inr (.inl ⟨h1.symm, h2⟩))
+    · exact .inr (.inr (.inr (.inl ⟨h1.symm, h2⟩)))
+    · exact .inr (.inr (.inr (.inr (.inl ⟨h1.symm, h2⟩))))
+    · exact .inr (.inr (.inr (.inr (.inr (.inl ⟨h1.symm, h2⟩)))))
+    · exact .inr (.inr (.inr (.inr (.inr (.inr ⟨h1.symm, h2⟩)))))
 
 theorem no_memory64_in_mem : ST_MEMORY64_LIST ∉ coreTypes m .mem := by
-  unfold coreTypes coreStreamSizes
-  cases m.exception <;> cases m.sysInfo <;>
-    simp [ST_THREAD_LIST, ST_MODULE_LIST, ST_MEMORY_LIST, ST_MEMORY64_LIST, ST_MEMORY_INFO_LIST, ST_THREAD_NAMES,
-      ST_UNLOADED_MODULE_LIST, ST_EXCEPTION, ST_SYSTEM_INFO, ST_SystemInfoStream]
+  intro h
+  exact absurd ((coreTypes_sublist m .mem).subset h) (by decide)
 
 theorem no_memory_in_mem64 : ST_MEMORY_LIST ∉ coreTypes m .mem64 := by
-  unfold coreTypes coreStreamSizes
-  cases m.exception <;> cases m.sysInfo <;>
-    simp [ST_THREAD_LIST, ST_MODULE_LIST, ST_MEMORY_LIST, ST_MEMORY64_LIST, ST_MEMORY_INFO_LIST, ST_THREAD_NAMES,
-      ST_UNLOADED_MODULE_LIST, ST_EXCEPTION, ST_SYSTEM_INFO, ST_SystemInfoStream]
+  intro h
+  exact absurd ((coreTypes_sublist m .mem64).subset h) (by decide)
+
+theorem no_exception (h : m.exception = none) : ST_EXCEPTION ∉ coreTypes m f := by
+  rw [mem_coreTypes]
+  rintro (h0 | h1)
+  · cases f <;> exact absurd h0 (by decide)
+  · simp [optTypes, h, ST_EXCEPTION, ST_SYSTEM_INFO, ST_SystemInfoStream, ST_MISC_INFO, ST_MiscInfoStream,
+      ST_HANDLE_DATA_STREAM, ST_HandleDataStream, ST_LINUX_MAPS, ST_LinuxMaps, ST_CRASHPAD,
+      ST_CrashpadInfoStream] at h1
+
+theorem no_sysInfo (h : m.sysInfo = none) : ST_SYSTEM_INFO ∉ coreTypes m f := by
+  rw [mem_coreTypes]
+  rintro (h0 | h1)
+  · cases f <;> exact absurd h0 (by decide)
+  · simp [optTypes, h, ST_EXCEPTION, ST_SYSTEM_INFO, ST_SystemInfoStream, ST_MISC_INFO, ST_MiscInfoStream,
+      ST_HANDLE_DATA_STREAM, ST_HandleDataStream, ST_LINUX_MAPS, ST_LinuxMaps, ST_CRASHPAD,
+      ST_CrashpadInfoStream] at h1
+
+theorem no_miscInfo (h : m.miscInfo = none) : ST_MISC_INFO ∉ coreTypes m f := by
+  rw [mem_coreTypes]
+  rintro (h0 | h1)
+  · cases f <;> exact absurd h0 (by decide)
+  · simp [optTypes, h, ST_EXCEPTION, ST_SYSTEM_INFO, ST_SystemInfoStream, ST_MISC_INFO, ST_MiscInfoStream,
+      ST_HANDLE_DATA_STREAM, ST_HandleDataStream, ST_LINUX_MAPS, ST_LinuxMaps, ST_CRASHPAD,
+      ST_CrashpadInfoStream] at h1
+
+theorem no_handles (h : m.handles = none) : ST_HANDLE_DATA_STREAM ∉ coreTypes m f := by
+  rw [mem_coreTypes]
+  rintro (h0 | h1)
+  · cases f <;> exact absurd h0 (by decide)
+  · simp [optTypes, h, ST_EXCEPTION, ST_SYSTEM_INFO, ST_SystemInfoStream, ST_MISC_INFO, ST_MiscInfoStream,
+      ST_HANDLE_DATA_STREAM, ST_HandleDataStream, ST_LINUX_MAPS, ST_LinuxMaps, ST_CRASHPAD,
+      ST_CrashpadInfoStream] at h1
+
+theorem no_linuxMaps (h : m.linuxMaps = none) : ST_LINUX_MAPS ∉ coreTypes m f := by
+  rw [mem_coreTypes]
+  rintro (h0 | h1)
+  · cases f <;> exact absurd h0 (by decide)
+  · simp [optTypes, h, ST_EXCEPTION, ST_SYSTEM_INFO, ST_SystemInfoStream, ST_MISC_INFO, ST_MiscInfoStream,
+      ST_HANDLE_DATA_STREAM, ST_HandleDataStream, ST_LINUX_MAPS, ST_LinuxMaps, ST_CRASHPAD,
+      ST_CrashpadInfoStream] at h1
+
+theorem no_crashpad (h : m.crashpad = none) : ST_CRASHPAD ∉ coreTypes m f := by
+  rw [mem_coreTypes]
+  rintro (h0 | h1)
+  · cases f <;> exact absurd h0 (by decide)
+  · simp [optTypes, h, ST_EXCEPTION, ST_SYSTEM_INFO, ST_SystemInfoStream, ST_MISC_INFO, ST_MiscInfoStream,
+      ST_HANDLE_DATA_STREAM, ST_HandleDataStream, ST_LINUX_MAPS, ST_LinuxMaps, ST_CRASHPAD,
+      ST_CrashpadInfoStream] at h1
 
 end core
 
